@@ -24,6 +24,7 @@ type c15Case struct {
 	HB      int      `json:"hb"`
 	DelayMs int      `json:"answer_delay_ms,omitempty"` // local-logout: delay before the peer's answer
 	Buf     int      `json:"buf,omitempty"`             // outgoing queue size (default 10)
+	LogonMs int      `json:"logon_timeout_ms,omitempty"` // acceptor's LogonTimeout (default 30 s): a time-out for a logon that never comes must not touch a session that did log on
 }
 
 func c15Run(c c15Case) (string, string) {
@@ -32,7 +33,7 @@ func c15Run(c c15Case) (string, string) {
 	if c.Buf > 0 {
 		buf = c.Buf
 	}
-	w := newWorld(wcfg{Role: c.Role, Buf: buf, HbMin: 1, HbMax: 60, HbInt: c.HB, CloseTimeout: ct})
+	w := newWorld(wcfg{Role: c.Role, Buf: buf, HbMin: 1, HbMax: 60, HbInt: c.HB, CloseTimeout: ct, LogonTimeout: time.Duration(c.LogonMs) * time.Millisecond})
 	w.logonOK(c.HB)
 	if !w.s.IsLogged() {
 		return "setup:not-logged", ""
@@ -264,6 +265,17 @@ func runC15(R *vlib.Out) {
 				!try(c15Case{Role: role, CloseMs: 1000, Prefix: p, Ending: "stop", Answer: "never", HB: 1}) {
 				return
 			}
+		}
+		// a short logon timeout that elapses while the ending is in progress
+		for _, a := range []string{"never", "before", "after"} {
+			for _, p := range [][]string{{}, {"App"}} {
+				if !try(c15Case{Role: role, CloseMs: 10000, Prefix: p, Ending: "stop", Answer: a, HB: 30, LogonMs: 1000}) {
+					return
+				}
+			}
+		}
+		if !try(c15Case{Role: role, CloseMs: 10000, Ending: "local-logout", Answer: "answer", HB: 30, LogonMs: 1000, DelayMs: 2500}) {
+			return
 		}
 		// the peer has stopped reading: the outgoing queue is full when Stop is called; the deadline still holds
 		for _, buf := range []int{1, 2} {
